@@ -118,6 +118,9 @@ impl<'a, T: Read + Write + Seek> ImageWriter<'a, T> {
         if self.finalized {
             Error::invalid("The image was already finalized, no more data can be added")?
         }
+        if self.image.visual_reference.is_some() {
+            Error::invalid("A visual reference image is already set")?
+        }
         let data = Blob::write(self.writer, image)?;
         let blob = ImageBlob { data, format };
         let mask = if let Some(mask_data) = mask {
